@@ -402,16 +402,23 @@ class WebVTTWriter(BaseWriter):
         # A properly encoded WebVTT string (plain unicode must be properly
         # escaped before being appended to this string)
         s = ""
+        # Opening style tags written since the last text or line break; they
+        # belong to the text that follows them.
+        pending_tags = ""
         for i, node in enumerate(nodes):
             if node.type_ == CaptionNode.TEXT:
                 if s and current_layout and node.layout_info != current_layout:
                     # If the positioning changes from one text node to
-                    # another, a new WebVTT cue has to be created.
-                    layout_groups.append((s, current_layout))
-                    s = ""
+                    # another, a new WebVTT cue has to be created. Tags
+                    # opened just before this text move to the new cue.
+                    layout_groups.append(
+                        (s[: len(s) - len(pending_tags)], current_layout)
+                    )
+                    s = pending_tags
                 # ATTENTION: This is where the plain unicode node content is
                 # finally encoded as WebVTT.
                 s += self._encode_illegal_characters(node.content) or "&nbsp;"
+                pending_tags = ""
                 current_layout = node.layout_info
             elif node.type_ == CaptionNode.STYLE:
                 resulting_style = self._calculate_resulting_style(
@@ -427,8 +434,10 @@ class WebVTTWriter(BaseWriter):
                         tags = self._convert_style_to_text_tag(style)
                         if node.start:
                             s += tags[0]
+                            pending_tags += tags[0]
                         else:
                             s += tags[1]
+                            pending_tags = ""
 
                 # TODO: Refactor pycaption and eliminate the concept of a
                 # "Style node"
@@ -438,6 +447,7 @@ class WebVTTWriter(BaseWriter):
                 if i == 0:  # cue text starts with a break
                     s += "&nbsp;"
                 s += "\n"
+                pending_tags = ""
 
         if s:
             layout_groups.append((s, current_layout))
